@@ -451,7 +451,7 @@ Theorem read_exact_io_matches_model data cut intr fuel pos calls n s' out :
 Proof.
   intros H Ho Hp.
   pose proof (read_exact_io_stream data cut intr None fuel pos calls n s' out H Ho Hp I) as R.
-  unfold read_exact. rewrite nlen_ndrop. rewrite andb_true_r in R.
+  rewrite read_exact_eq. rewrite nlen_ndrop. rewrite andb_true_r in R.
   destruct (N.leb_spec (pos + n) (nlen data)) as [L|L];
     destruct (N.leb_spec n (nlen data - pos)) as [L2|L2]; try lia.
   - destruct R as [R1 R2]. split; [exact R1|]. split; [exact R2|]. apply ndrop_ndrop.
